@@ -805,7 +805,6 @@ def run_history(task) -> Dict[str, Any]:
     drv, ops = task["driver"], task["ops"]
     probe_at = set(task.get("probe_at") or [])
     out: Dict[str, Any] = {"steps": [], "viol": [], "stats": None, "raw_final": None, "error": None}
-    import time
     import h5py
     t_start = time.time()
     with vlib.workdir("c08") as d:
@@ -1114,7 +1113,9 @@ def w_shrink(job) -> list:
 
 
 def run(ctx: vlib.Ctx):
+    t_run = time.time()
     proof = ctx.check_proofs()
+    vlib.log(f"c08: proofs {time.time() - t_run:.1f}s")
     cov = ctx.coverage
     cov["trusted_base"] = vlib.TRUSTED_COMMON + [
         "modelled, not verified: the h5py/HDF5 semantics of the group protocol on a plain tree (u_apply: intermediate group "
@@ -1128,12 +1129,12 @@ def run(ctx: vlib.Ctx):
     global PKG
     PKG = vlib.pmap(load_pkg_names, [None, None], procs=2)[0]
 
-    nh = ctx.budget(28, 900)
+    nh = ctx.budget(28, 500)
     nops = ctx.budget(16, 24)
     hists = [gen_history(ctx.rng, ctx.rng.randint(6, nops)) for _ in range(nh)]
     # fixed pattern histories: all reserved forms in every position of every operation
     hists += pattern_histories() + compound_histories()
-    nprobe = {"h5": ctx.budget(4, 32), "ih5": ctx.budget(2, 16)}
+    nprobe = {"h5": ctx.budget(4, 20), "ih5": ctx.budget(2, 8)}
     tasks = []
     for hi, ops in enumerate(hists):
         for drv in ("h5", "ih5"):
@@ -1142,7 +1143,6 @@ def run(ctx: vlib.Ctx):
                 probe_at = [len(ops) - 1] if ctx.quick else sorted({len(ops) - 1, ctx.rng.randrange(len(ops))})
             tasks.append({"driver": drv, "ops": ops, "probe_at": probe_at, "hist": hi,
                           "limit": 600 if probe_at else 240, "light": ctx.quick})
-    import time
     t0 = time.time()
     mhists, spans, mres, rounds = run_model_expanding(hists)
     t1 = time.time()
@@ -1189,6 +1189,7 @@ def run(ctx: vlib.Ctx):
             if not again["error"]:
                 errors.remove(e)
 
+    vlib.log(f"c08: comparison done at {time.time() - t_run:.1f}s")
     flist = [(task, v) for _k, (task, v, _r) in sorted(findings.items())]
     smalls = vlib.pmap(w_shrink, flist)
     for (task, v), (reproduced, small) in zip(flist, smalls):
